@@ -2,6 +2,7 @@
 \* reorgs above the finalized block, foreign injections, dependency failures
 CONSTANTS
   Rule = "fixed"
+  StoreRead = "snapshot"
   Treadmill = FALSE
   Record = FALSE
   MaxBlock = 6
